@@ -164,7 +164,7 @@ def handle : List String → String
   | ["ffn", isXml, fmt] =>
     match parseFmt fmt with
     | some a =>
-      match formatterForName BS.Gen.htmlRegistry BS.Gen.xmlRegistry (isXml == "1") a with
+      match formatterForName BS.Gen.fmtHtmlRegistry BS.Gen.fmtXmlRegistry (isXml == "1") a with
       | .ok c => showCfg c
       | .keyError => "KeyError"
     | none => "bad-fmt"
@@ -172,7 +172,7 @@ def handle : List String → String
     match parseFmt fmt with
     | none => "bad-fmt"
     | some a =>
-      match formatterForName BS.Gen.htmlRegistry BS.Gen.xmlRegistry (isXml == "1") a with
+      match formatterForName BS.Gen.fmtHtmlRegistry BS.Gen.fmtXmlRegistry (isXml == "1") a with
       | .keyError => "KeyError"
       | .ok c =>
         let k := ng.toNat!
